@@ -122,9 +122,30 @@ def run(shard, ctx):
                          {"gen": c.custom, "cmd": c.name, "table": setname, "args": a, "mode": mode}, exc=e)
                 continue
             nt = judge(ctx, c, setname, "ctor", a, exp, cmd)
-            # a copy job is looped: the caller's very dictionaries are handed to the library again
+            # the list-valued arguments as other iterables (a tuple, an iterator, a generator): the same list goes out
+            if setname == c.sets[0] and i % 3 == 0 and "_kwargs" in a:
+                how = ("tuple", "iterator", "generator")[(i // 3) % 3]
+                alt = DO.fresh(a)
+                n_lists = 0
+                for k, v in list(alt["_kwargs"].items()):
+                    if isinstance(v, list):
+                        alt["_kwargs"][k] = tuple(v) if how == "tuple" else iter(v) if how == "iterator" else (x for x in v)
+                        n_lists += 1
+                if n_lists:
+                    try:
+                        judge(ctx, c, setname, "lists_as_%s" % how, a, exp, harness.construct(c, setname, alt))
+                        ctx.count("lists_given_as_other_iterables")
+                    except Exception as e:  # noqa: BLE001
+                        ctx.fail("C05:%s.list_as_%s_raises.%s" % (c.custom, how, type(e).__name__), "%s with its descriptor lists given as %s raised %s: %s" % (c.name, how, type(e).__name__, e),
+                                 {"gen": c.custom, "cmd": c.name, "args": a}, exc=e)
+            # a copy job is looped: the caller's very dictionaries are handed to the library again (their byte strings mutable,
+            # as the library's own parsers return them, in every other case)
             if setname == c.sets[0]:
                 shared = DO.fresh(a)
+                if i % 2:
+                    from vmon.props.c09 import to_bytearrays
+
+                    shared = to_bytearrays(shared)
                 try:
                     harness.construct(c, setname, shared)
                     again = harness.construct(c, setname, shared)
